@@ -545,3 +545,13 @@ def run_scenario(main: Callable[['Net'], Any], **kw: Any) -> 'Net':
     net = Net(**kw)
     net.run(main(net))
     return net
+
+
+async def quiet(aw: Any) -> None:
+    """Harness teardown after the trace has ended: whatever the (possibly modified) library raises here is not part of the
+    observation and must not break the check."""
+    try:
+        await aw
+    except BaseException as ex:  # noqa: BLE001
+        if isinstance(ex, (KeyboardInterrupt, SystemExit)):
+            raise
